@@ -117,6 +117,27 @@ DIRFILL = [('dos33', 'do:5.25in', 105), ('dos32', 'd13:5.25in-13', 84), ('prodos
            ('cpm2', 'do:5.25in', 48), ('cpm2', 'imd:5.25in-osb-sd', 64), ('cpm2', 'imd:8in', 64), ('cpm2', 'td0:5.25in-kayii', 64), ('cpm3', 'do:5.25in', 48),
            ('fat', 'img:5.25in-ibm-ssdd8', 64), ('fat', 'img:5.25in-ibm-ssdd9', 64), ('fat', 'img:5.25in-ibm-dsdd9', 112)]
 
+COLLIDE = [('dos33', 'do:5.25in'), ('dos32', 'd13:5.25in-13'), ('prodos', 'po:5.25in'), ('pascal', 'po:5.25in'), ('cpm2', 'do:5.25in'), ('cpm3', 'do:5.25in'),
+           ('fat', 'img:5.25in-ibm-dsdd9')]
+
+
+def collide_cases(ctx, opts, tag):
+    """names meeting names: put onto existing, rename onto existing (must be refused), rename back and forth, and for CP/M the same
+    name in different user areas (rename must look at the target's own area)"""
+    out = []
+    for i, (fs, lab) in enumerate(COLLIDE):
+        cfg = fsgen.FS[fs]
+        ext = '.T' if cfg['ext'] else ''
+        A, B, C = 'AA' + ext, 'BB' + ext, 'CC' + ext
+        ops = [f"P~{A}~0~U~~", f"P~{B}~0-1~U~~", f"R~{A}~{B}", f"P~{B}~0~U~~", f"R~{A}~{C}", f"R~{C}~{A}", f"R~{B}~{A}", f"D~{A}", f"R~{B}~{A}", f"R~{A}~{A}"]
+        if cfg.get('users'):
+            u = ctx.rng.choice(['1', '3', '15'])
+            ops += [f"P~{u}:{A}~0~U~~", f"P~{u}:{B}~0~U~~", f"R~{u}:{A}~{u}:{B}", f"P~{C}~0~U~~", f"R~{u}:{A}~{u}:{C}", f"R~{u}:{C}~{u}:{A}", f"P~{u}:{C}~0~U~~",
+                    f"R~{C}~{B}", f"D~{u}:{B}", f"R~{u}:{A}~{u}:{B}"]
+        out.append(f"fsh {tag}{i} {fs} {lab} {opts} {';'.join(ops)}")
+    return out
+
+
 def dirfill_cases(ctx, opts, tag):
     return [f"fsh {tag}{i} {fs} {lab} {opts} {fsgen.dirfill_history(ctx.rng, fs, cap)}" for i, (fs, lab, cap) in enumerate(DIRFILL)]
 
@@ -143,9 +164,10 @@ def standard_run(ctx, pid, opts='r', lock_heavy=False, also=(), model_ok=True, n
         corr = gen_cases(ctx, MODEL_FS, n_c, '-', True, lock_heavy=lock_heavy, tag='m')
         corr += [c for c in dirfill_cases(ctx, '-', 'md') if c.split()[2] != 'cpm3']
         corr += exactfit_cases(ctx, '-', 'me')
+        corr += [c for c in collide_cases(ctx, '-', 'mc') if c.split()[2] != 'cpm3']
         corr += [' '.join(c.split(' ')[:4] + ['-'] + c.split(' ')[5:]).replace(' k', ' m', 1) for c in corpus_cases(pid) if c.split()[2] != 'cpm3']
         run_correspondence(ctx, corr)
-    oracle = corpus_cases(pid) + dirfill_cases(ctx, opts, 'od') + exactfit_cases(ctx, opts, 'oe') + gen_cases(ctx, ALL_FS, n_o, opts, False, lock_heavy=lock_heavy, tag='o')
+    oracle = corpus_cases(pid) + collide_cases(ctx, opts, 'oc') + dirfill_cases(ctx, opts, 'od') + exactfit_cases(ctx, opts, 'oe') + gen_cases(ctx, ALL_FS, n_o, opts, False, lock_heavy=lock_heavy, tag='o')
     out = run_oracle(ctx, pid, oracle, also=also)
     ctx.samples += [oracle[-1][:300] + ' -> ' + (out.get(oracle[-1].split()[1]) or '')[:300]]
     ctx.distribution['rule'] = ('a case is one operation history on one (file system, disk kind, container); distinct by text; non-trivial = it ran to its end or to an '
